@@ -787,3 +787,136 @@ package weshnet
 //@ func restoreOrbitDBHeads
 //@   for C20
 //@   safety
+
+//@ # ---- export: what is written to the archive
+//@ pred tarKeeps(tw) = forall i {tarName(tw)[i]} :: i < old(tarN(tw)) ==> tarName(tw)[i] == old(tarName(tw))[i] && tarData(tw)[i] == old(tarData(tw))[i] && tarSize(tw)[i] == old(tarSize(tw))[i]
+//@ func exportPrivateKey
+//@   for C20
+//@   safety
+//@   requires tw != nil
+//@   modifies tarN(tw), tarName(tw), tarSize(tw), tarData(tw)
+//@   ensures [C20.export.keyfile] result == nil ==> tarN(tw) == old(tarN(tw)) + 1 && tarName(tw)[old(tarN(tw))] == filename
+//@        && tarSize(tw)[old(tarN(tw))] == len(marshalledPrivateKey) && tarData(tw)[old(tarN(tw))] == bytes(marshalledPrivateKey)
+//@   ensures [C20.export.keyfile.frame] tarKeeps(tw) && tarN(tw) >= old(tarN(tw))
+//@ # a log entry goes out as the raw block the DAG service holds under its identifier, named by that identifier
+//@ func (*service).exportOrbitDBEntry
+//@   for C20
+//@   safety
+//@   requires s != nil && s.ipfsCoreAPI != nil && tw != nil
+//@   modifies tarN(tw), tarName(tw), tarSize(tw), tarData(tw)
+//@   ensures [C20.export.entry] result == nil ==> tarN(tw) == old(tarN(tw)) + 1 && tarName(tw)[old(tarN(tw))] == bcat("entries/", idStr)
+//@        && tarData(tw)[old(tarN(tw))] == dagblk(dagsvc(s.ipfsCoreAPI))[cidparse_s(idStr)]
+//@        && tarSize(tw)[old(tarN(tw))] == blen(dagblk(dagsvc(s.ipfsCoreAPI))[cidparse_s(idStr)])
+//@   ensures [C20.export.entry.frame] tarKeeps(tw) && tarN(tw) >= old(tarN(tw))
+//@ # the two key files hold what the secret store exports (C11.api.export: the marshalled account and account-proof private keys)
+//@ spec func exportedAccountKey(s Ref) Bytes
+//@ spec func exportedProofKey(s Ref) Bytes
+//@ extern (berty.tech/weshnet/v2/pkg/secretstore.SecretStore).ExportAccountKeysForBackup(s) (a, p, err)
+//@   ensures err == nil ==> bytes(a) == exportedAccountKey(s) && bytes(p) == exportedProofKey(s)
+//@ func (*service).exportAccountKeys
+//@   for C20
+//@   safety
+//@   requires s != nil && s.secretStore != nil && tw != nil
+//@   modifies tarN(tw), tarName(tw), tarSize(tw), tarData(tw)
+//@   ensures [C20.export.keys] result == nil ==> tarN(tw) == old(tarN(tw)) + 2
+//@        && tarName(tw)[old(tarN(tw))] == "account.key" && tarData(tw)[old(tarN(tw))] == exportedAccountKey(s.secretStore)
+//@        && tarName(tw)[old(tarN(tw)) + 1] == "account_proof.key" && tarData(tw)[old(tarN(tw)) + 1] == exportedProofKey(s.secretStore)
+//@   ensures [C20.export.keys.frame] tarKeeps(tw) && tarN(tw) >= old(tarN(tw))
+//@ # every entry of a store's log goes out: one archive entry per key of the log's entry map, in that order
+//@ spec func oplogOf(store Ref) Ref
+//@ spec func entriesOf(log Ref) Ref
+//@ spec func entryKeyN(m Ref) Int
+//@ spec func entryKey(m Ref, i Int) Bytes
+//@ extern (berty.tech/go-orbit-db.Store).OpLog(store) (l)
+//@   ensures l == oplogOf(store) && l != nil
+//@ extern (berty.tech/go-ipfs-log.Log).GetEntries(l) (om)
+//@   ensures om == entriesOf(l)
+//@ extern (berty.tech/go-ipfs-log/iface.IPFSLogOrderedEntries).Keys(m) (ks)
+//@   ensures len(ks) == entryKeyN(m) && (forall i {ks[i]} :: 0 <= i && i < len(ks) ==> ks[i] == entryKey(m, i))
+//@ extern go.uber.org/multierr.Append(left, right) (e)
+//@   noeffect
+//@   ensures left != nil || right != nil ==> e != nil
+//@ func (*service).exportOrbitDBStore
+//@   for C20
+//@   safety
+//@   requires s != nil && s.ipfsCoreAPI != nil && tw != nil && store != nil
+//@   modifies tarN(tw), tarName(tw), tarSize(tw), tarData(tw)
+//@   ensures [C20.export.store] result == nil ==> tarN(tw) == old(tarN(tw)) + entryKeyN(entriesOf(oplogOf(store)))
+//@        && (forall j {entryKey(entriesOf(oplogOf(store)), j)} :: 0 <= j && j < entryKeyN(entriesOf(oplogOf(store))) ==>
+//@              tarName(tw)[old(tarN(tw)) + j] == bcat("entries/", entryKey(entriesOf(oplogOf(store)), j))
+//@              && tarData(tw)[old(tarN(tw)) + j] == dagblk(dagsvc(s.ipfsCoreAPI))[cidparse_s(entryKey(entriesOf(oplogOf(store)), j))])
+//@   ensures [C20.export.store.frame] tarKeeps(tw) && tarN(tw) >= old(tarN(tw))
+//@   loop 0 invariant -1 <= rangeindex && (rangeindex < len(allCIDs) || len(allCIDs) == 0 && rangeindex == -1)
+//@   loop 0 invariant tarN(tw) == old(tarN(tw)) + rangeindex + 1 && tarKeeps(tw)
+//@   loop 0 invariant len(allCIDs) == entryKeyN(entriesOf(oplogOf(store))) && (forall i {allCIDs[i]} :: 0 <= i && i < len(allCIDs) ==> allCIDs[i] == entryKey(entriesOf(oplogOf(store)), i))
+//@   loop 0 invariant forall j {entryKey(entriesOf(oplogOf(store)), j)} :: 0 <= j && j <= rangeindex ==>
+//@              tarName(tw)[old(tarN(tw)) + j] == bcat("entries/", entryKey(entriesOf(oplogOf(store)), j))
+//@              && tarData(tw)[old(tarN(tw)) + j] == dagblk(dagsvc(s.ipfsCoreAPI))[cidparse_s(entryKey(entriesOf(oplogOf(store)), j))]
+//@   loop 0 decreases len(allCIDs) - rangeindex
+
+//@ # ---- heads: metadata heads and message heads are kept apart, in order, from the stores to the archive and back
+//@ # headsRead(r): the heads message last parsed from reader r
+//@ ghost headsRead(Ref) Ref
+//@ func readExportOrbitDBGroupHeads
+//@   for C20
+//@   safety
+//@   requires reader != nil
+//@   modifies rd(reader), headsRead(reader)
+//@   ghostset headsRead(reader) := groupHeads
+//@   ensures [C20.heads.recorded] ret3 == nil ==> headsRead(reader) == ret0
+//@   ensures [C20.heads.read] ret3 == nil ==> ret0 != nil && fresh(ret0) && punmarshal_ok(old(rd(reader))) && msgv(ret0) == punmarshal(old(rd(reader)))
+//@        && len(ret1) == len(ret0.MetadataHeadsCids) && len(ret2) == len(ret0.MessagesHeadsCids)
+//@        && (forall i {ret1[i]} :: 0 <= i && i < len(ret1) ==> ret1[i].str == bytes(ret0.MetadataHeadsCids[i]))
+//@        && (forall i {ret2[i]} :: 0 <= i && i < len(ret2) ==> ret2[i].str == bytes(ret0.MessagesHeadsCids[i]))
+//@   loop 0 invariant groupHeads != nil && fresh(groupHeads) && msgv(groupHeads) == punmarshal(old(rd(reader))) && punmarshal_ok(old(rd(reader)))
+//@   loop 0 invariant len(messagesCIDs) == len(groupHeads.MessagesHeadsCids) && fresh(messagesCIDs)
+//@   loop 0 invariant -1 <= rangeindex && (rangeindex < len(messagesCIDs) || len(messagesCIDs) == 0 && rangeindex == -1)
+//@   loop 0 invariant forall i {messagesCIDs[i]} :: 0 <= i && i <= rangeindex ==> messagesCIDs[i].str == bytes(groupHeads.MessagesHeadsCids[i])
+//@   loop 1 invariant groupHeads != nil && fresh(groupHeads) && msgv(groupHeads) == punmarshal(old(rd(reader))) && punmarshal_ok(old(rd(reader)))
+//@   loop 1 invariant len(messagesCIDs) == len(groupHeads.MessagesHeadsCids) && fresh(messagesCIDs)
+//@   loop 1 invariant forall i {messagesCIDs[i]} :: 0 <= i && i < len(messagesCIDs) ==> messagesCIDs[i].str == bytes(groupHeads.MessagesHeadsCids[i])
+//@   loop 1 invariant len(metaCIDs) == len(groupHeads.MetadataHeadsCids) && fresh(metaCIDs) && metaCIDs.base != messagesCIDs.base
+//@   loop 1 invariant -1 <= rangeindex && (rangeindex < len(metaCIDs) || len(metaCIDs) == 0 && rangeindex == -1)
+//@   loop 1 invariant forall i {metaCIDs[i]} :: 0 <= i && i <= rangeindex ==> metaCIDs[i].str == bytes(groupHeads.MetadataHeadsCids[i])
+
+//@ pred isHeadsName(n) = blen(n) >= 6 && bslice(n, 0, 6) == "heads/"
+//@ # (opens the group's two stores in replication mode and loads the heads in goroutines: outside reach, assumed)
+//@ extern (*berty.tech/weshnet/v2.WeshOrbitDB).setHeadsForGroup(s, ctx, g, metaHeads, messageHeads) (err)
+//@   havocall
+//@ alias HR = as(headsRead(caller_reader), "*berty.tech/weshnet/v2/pkg/protocoltypes.GroupHeadsExport")
+//@ func restoreOrbitDBHeads$1
+//@   for C20
+//@   safety
+//@   requires header != nil && reader != nil && odb != nil && deref(odb) != nil && ctx != nil
+//@   havocall
+//@   at (*berty.tech/weshnet/v2.WeshOrbitDB).setHeadsForGroup requires [C20.heads.restore] headsRead(caller_reader) != nil && g != nil
+//@        && bytes(g.PublicKey) == bytes($HR.PublicKey) && bytes(g.SignPub) == bytes($HR.SignPub) && bytes(g.LinkKey) == bytes($HR.LinkKey)
+//@        && len(metaHeads) == len($HR.MetadataHeadsCids) && len(messageHeads) == len($HR.MessagesHeadsCids)
+//@        && (forall i {metaHeads[i]} :: 0 <= i && i < len(metaHeads) ==> metaHeads[i].str == bytes($HR.MetadataHeadsCids[i]))
+//@        && (forall i {messageHeads[i]} :: 0 <= i && i < len(messageHeads) ==> messageHeads[i].str == bytes($HR.MessagesHeadsCids[i]))
+//@   ensures [C20.heads.other] !isHeadsName(old(header.Name)) ==> !ret0 && ret1 == nil
+//@   ensures [C20.heads.handled] isHeadsName(old(header.Name)) ==> ret0
+
+//@ # ---- export: the heads file of a group. headsWritten(tw): the message last serialized into the archive
+//@ ghost headsWritten(Ref) Ref
+//@ alias HE = as(m, "*berty.tech/weshnet/v2/pkg/protocoltypes.GroupHeadsExport")
+//@ func (*service).exportOrbitDBGroupHeads
+//@   for C20
+//@   safety
+//@   requires s != nil && gc != nil && gc.group != nil && tw != nil
+//@   modifies tarN(tw), tarName(tw), tarSize(tw), tarData(tw), headsWritten(tw)
+//@   ghostset headsWritten(tw) := headsExport
+//@   at google.golang.org/protobuf/proto.Marshal requires [C20.export.heads] typeis(m, "*berty.tech/weshnet/v2/pkg/protocoltypes.GroupHeadsExport")
+//@        && bytes($HE.PublicKey) == bytes(caller_gc.group.PublicKey)
+//@        && len($HE.MetadataHeadsCids) == len(caller_headsMetadata) && len($HE.MessagesHeadsCids) == len(caller_headsMessages)
+//@        && (forall i {caller_headsMetadata[i]} :: 0 <= i && i < len(caller_headsMetadata) ==> bytes($HE.MetadataHeadsCids[i]) == caller_headsMetadata[i].str)
+//@        && (forall i {caller_headsMessages[i]} :: 0 <= i && i < len(caller_headsMessages) ==> bytes($HE.MessagesHeadsCids[i]) == caller_headsMessages[i].str)
+//@   ensures [C20.export.headsfile] result == nil ==> tarN(tw) == old(tarN(tw)) + 1 && tarName(tw)[old(tarN(tw))] == bcat("heads/", b64(bytes(gc.group.PublicKey)))
+//@        && tarData(tw)[old(tarN(tw))] == pmarshal(msgv(headsWritten(tw)))
+//@   ensures [C20.export.headsfile.frame] tarKeeps(tw) && tarN(tw) >= old(tarN(tw))
+//@   loop 0 invariant len(cidsMeta) == len(headsMetadata) && fresh(cidsMeta) && -1 <= rangeindex && (rangeindex < len(headsMetadata) || len(headsMetadata) == 0 && rangeindex == -1)
+//@   loop 0 invariant forall i {cidsMeta[i]} :: 0 <= i && i <= rangeindex ==> bytes(cidsMeta[i]) == headsMetadata[i].str
+//@   loop 1 invariant len(cidsMeta) == len(headsMetadata) && fresh(cidsMeta)
+//@   loop 1 invariant forall i {cidsMeta[i]} :: 0 <= i && i < len(headsMetadata) ==> bytes(cidsMeta[i]) == headsMetadata[i].str
+//@   loop 1 invariant len(cidsMessages) == len(headsMessages) && fresh(cidsMessages) && cidsMessages.base != cidsMeta.base && -1 <= rangeindex && (rangeindex < len(headsMessages) || len(headsMessages) == 0 && rangeindex == -1)
+//@   loop 1 invariant forall i {cidsMessages[i]} :: 0 <= i && i <= rangeindex ==> bytes(cidsMessages[i]) == headsMessages[i].str
